@@ -475,6 +475,19 @@ class CallMixin:
                 if loc in GHOST_CELLS:
                     self.havoc_cell(VPtr(GHOST_CELLS[loc]), node)
                     continue
+                if loc.startswith('$fields:'):
+                    # '$fields:Class.attr' - the callee may write that attribute of objects known only by reference:
+                    # the attribute is forgotten for EVERY such object of the class (over-approximation); the callee's
+                    # postconditions say what is known afterwards
+                    cls_, _, attr_ = loc[len('$fields:'):].partition('.')
+                    spec_ = (self.class_specs.get(cls_) or {}).get(attr_)
+                    k_ = flat_kind(spec_) if spec_ is not None else None
+                    if k_ is None:
+                        self.limit(f'modifies clause {loc!r} of {c.key}: no flat field {attr_!r} declared for class {cls_}', node)
+                    self.st.ghost[('field', cls_, attr_)] = z3.Const(self.fresh_name(f'fieldarr_{cls_}_{attr_}'),
+                                                                      z3.ArraySort(RefSort, kind_sort(k_)))
+                    self.st.havoc_used = True
+                    continue
                 locnode = self.parse_spec(loc)
                 if isinstance(locnode, ast.Attribute):
                     base = self.res(self.eval_spec(locnode.value))
@@ -485,6 +498,16 @@ class CallMixin:
                             nf = dict(bc.fields)
                             nf[locnode.attr] = self.fresh_like(cur, locnode.attr, node)
                             self.setcell(base, ObjCell(bc.cls, nf, bc.spec))
+                            self.st.havoc_used = True
+                            continue
+                    if isinstance(base, VOpaque) and base.cls:
+                        # a declared flat field of an object known only by reference: forgotten for THIS object only
+                        # (Burstall array store of a fresh value); every other object keeps its field
+                        spec_ = (self.class_specs.get(base.cls) or {}).get(locnode.attr)
+                        k_ = flat_kind(spec_) if spec_ is not None else None
+                        if k_ is not None:
+                            fv = z3.Const(self.fresh_name('hv_' + locnode.attr), kind_sort(k_))
+                            models.opaque_setattr(self, base, locnode.attr, self.unflat(fv, k_), node)
                             self.st.havoc_used = True
                             continue
                 p = self.res(self.eval_spec(loc))
